@@ -48,7 +48,10 @@ SafeInner == {d \in Plain : d.id \in {"num:int8:192", "num:float64:96", "str:abc
                                      "stringer:abc", "number:96", "boolean:t", "decimal:96", "nilptr:vstringer", "slice:int:1,2",
                                      "num:uint16:4194240", "num:float32:-160"}}
 Safes == {[d EXCEPT !.id = "safe:" \o ToString(n) \o ":" \o d.id] : d \in SafeInner, n \in 1..3}
-Catalogue == Plain \cup Safes
+(* wrappers that are not stick's own safeValue type (an application's implementation of the SafeValue interface), nested *)
+CSafes == {[d EXCEPT !.id = "csafe:" \o ToString(n) \o ":" \o d.id] : d \in SafeInner, n \in 1..3}
+          \cup {[d EXCEPT !.id = "safe:1:csafe:2:" \o d.id] : d \in SafeInner}
+Catalogue == Plain \cup Safes \cup CSafes
 
 (* ---- what the property requires ---- *)
 AnyV == [any |-> TRUE]
